@@ -13,6 +13,9 @@
          never uses more comparisons than bound+1 (nor than height+1); New gives floor(log2 n);
          H1 and H2 on the float limit values themselves.  All arithmetic in the extracted Z. *)
 
+(* big trees allocate gigabytes of short-lived Z digits: a roomy minor heap halves the run time *)
+let () = Gc.set { (Gc.get ()) with Gc.minor_heap_size = 4 * 1024 * 1024; Gc.space_overhead = 200 }
+
 let zi = z_of_int
 let ( <=! ) a b = M.Z.leb a b
 
@@ -221,12 +224,265 @@ let eval_point beta n hint =
      && (let (p, p1) = model_pp beta hint (zi n) in p && not p1) then string_of_int hint
   else string_of_z (M.limit_exact (zi beta) (zi n))
 
+(* ================================================================== big trees (B lines, harness scale.go) *)
+
+(* ---- key sequences, seq and digest, exactly as in the harness *)
+let perm_of n seed =
+  let p = Array.init n (fun i -> i) in
+  let x = ref (((seed mod 2147483648) + 2147483648) mod 2147483648) in
+  for i = n - 1 downto 1 do
+    x := (!x * 1103515245 + 12345) mod 2147483648;
+    let j = (!x lsr 8) mod (i + 1) in
+    let t = p.(i) in p.(i) <- p.(j); p.(j) <- t
+  done;
+  p
+
+let order_idx pat n seed : int array =
+  match pat with
+  | 'a' -> Array.init n (fun i -> i)
+  | 'd' -> Array.init n (fun i -> n - 1 - i)
+  | 'z' | 'i' ->
+    let out = Array.make n 0 in
+    let lo = ref 0 and hi = ref (n - 1) and w = ref 0 in
+    while !lo <= !hi do
+      out.(!w) <- !lo; incr w;
+      if !lo <> !hi then begin out.(!w) <- !hi; incr w end;
+      incr lo; decr hi
+    done;
+    if pat = 'i' then Array.init n (fun i -> out.(n - 1 - i)) else out
+  | 'r' -> perm_of n seed
+  | _ -> raise Bad
+
+let max_seq = 1 lsl 16
+let keys_of_ks (s : string) : int list =
+  match String.split_on_char ',' s with
+  | "e" :: rest ->
+    if List.length rest > max_seq then raise Bad;
+    List.map (fun x -> match int_of_string_opt x with Some v -> v | None -> raise Bad) rest
+  | [pat; lo; step; n; rep; take; seed] when String.length pat = 1 ->
+    let iv x = match int_of_string_opt x with Some v -> v | None -> raise Bad in
+    let lo = iv lo and step = iv step and n = iv n and rep = iv rep and take = iv take and seed = iv seed in
+    if n < 0 || n > max_seq || rep < 1 || take < 0 || take > n || abs lo > 1 lsl 40 || abs step > 1 lsl 20 then raise Bad;
+    let idx = order_idx pat.[0] n seed in
+    List.init take (fun j -> lo + step * (idx.(j) / rep))
+  | _ -> raise Bad
+
+let enc_seq (xs : int list) : string =
+  let a = Array.of_list xs in
+  let n = Array.length a in
+  if n = 0 then "." else begin
+    let num v = if v < 0 then "~" ^ string_of_int (- v) else string_of_int v in
+    let toks = ref [] in
+    let i = ref 0 in
+    while !i < n do
+      if !i > 0 && (a.(!i) = a.(!i - 1) + 1 || a.(!i) = a.(!i - 1) - 1) then begin
+        let d = a.(!i) - a.(!i - 1) in
+        let j = ref !i in
+        while !j < n && a.(!j) = a.(!j - 1) + d do incr j done;
+        toks := ((if d < 0 then "-" else "+") ^ string_of_int (!j - !i)) :: !toks;
+        i := !j
+      end else begin
+        let j = ref !i in
+        while !j < n && a.(!j) = a.(!i) do incr j done;
+        toks := (if !j - !i = 1 then num a.(!i) else num a.(!i) ^ "x" ^ string_of_int (!j - !i)) :: !toks;
+        i := !j
+      end
+    done;
+    String.concat "." (List.rev !toks)
+  end
+
+let dec_seq (s : string) : int list =
+  if s = "." || s = "" then [] else begin
+    let out = ref [] and prev = ref 0 and total = ref 0 in
+    let put v = incr total; if !total > 4 * max_seq then raise Bad; out := v :: !out; prev := v in
+    let nat x = match int_of_string_opt x with Some v when v >= 0 -> v | _ -> raise Bad in
+    List.iter (fun tok ->
+      let l = String.length tok in
+      if l = 0 then raise Bad;
+      match tok.[0] with
+      | '+' -> if !out = [] then raise Bad; for _ = 1 to nat (String.sub tok 1 (l - 1)) do put (!prev + 1) done
+      | '-' -> if !out = [] then raise Bad; for _ = 1 to nat (String.sub tok 1 (l - 1)) do put (!prev - 1) done
+      | _ ->
+        let (vs, c) = match String.index_opt tok 'x' with
+          | Some i -> (String.sub tok 0 i, nat (String.sub tok (i + 1) (l - i - 1)))
+          | None -> (tok, 1) in
+        let v = if String.length vs > 0 && vs.[0] = '~' then - (nat (String.sub vs 1 (String.length vs - 1))) else nat vs in
+        for _ = 1 to c do put v done) (String.split_on_char '.' s);
+    List.rev !out
+  end
+
+let feed (a, b) v =
+  let x = if v < 0 then (-v) + (1 lsl 20) else v in
+  let x = x mod (1 lsl 30) in
+  ((a * 31337 + x + 7) mod 2147483647, (b * 65599 + x + 13) mod 2147483629)
+let show_hash (a, b) = Printf.sprintf "%x.%x" a b
+
+(* ---- floor-log tables with small native bignums (naturals, little endian, base 2^30):
+   tab a c n = min(n, largest k with a^k <= n * c^k), built for increasing n by stepping k upwards.
+   The extracted Z arithmetic needs seconds per balance factor for trees of thousands of keys (numbers
+   of thousands of bits, one multiplication per size); what the tables deliver is cross-checked
+   against the extracted limit_capped / bound_okb on small arguments. *)
+let bbits = 30
+let bmask = (1 lsl bbits) - 1
+let big_trim (a : int array) =
+  let n = ref (Array.length a) in
+  while !n > 0 && a.(!n - 1) = 0 do decr n done;
+  if !n = Array.length a then a else Array.sub a 0 !n
+let big_mul_small (a : int array) (m : int) =
+  let n = Array.length a in
+  let r = Array.make (n + 2) 0 in
+  let carry = ref 0 in
+  for i = 0 to n - 1 do
+    let v = a.(i) * m + !carry in
+    r.(i) <- v land bmask; carry := v lsr bbits
+  done;
+  r.(n) <- !carry land bmask; r.(n + 1) <- !carry lsr bbits;
+  big_trim r
+let big_cmp (a : int array) (b : int array) =
+  let la = Array.length a and lb = Array.length b in
+  if la <> lb then compare la lb else begin
+    let i = ref (la - 1) in
+    while !i >= 0 && a.(!i) = b.(!i) do decr i done;
+    if !i < 0 then 0 else compare a.(!i) b.(!i)
+  end
+
+type ntab = { na : int; nc : int; mutable nk : int; mutable npa : int array; mutable npc : int array;
+              mutable nvals : int array; mutable nupto : int }
+let ntabs : (int * int, ntab) Hashtbl.t = Hashtbl.create 32
+let floor_log_capped (a : int) (c : int) (n : int) : int =
+  if n < 1 || a < 2 || c < 1 || c >= a || a >= 1 lsl 20 then raise Bad;
+  let t = match Hashtbl.find_opt ntabs (a, c) with
+    | Some t -> t
+    | None -> let t = { na = a; nc = c; nk = 0; npa = [|1|]; npc = [|1|]; nvals = Array.make 64 0; nupto = 0 } in
+      Hashtbl.add ntabs (a, c) t; t in
+  while t.nupto < n do
+    let m = t.nupto + 1 in
+    let continue = ref true in
+    while !continue && t.nk < m do
+      let a2 = big_mul_small t.npa a and c2 = big_mul_small t.npc c in
+      if big_cmp a2 (big_mul_small c2 m) <= 0 then begin t.npa <- a2; t.npc <- c2; t.nk <- t.nk + 1 end
+      else continue := false
+    done;
+    if m >= Array.length t.nvals then begin
+      let v = Array.make (2 * m) 0 in Array.blit t.nvals 0 v 0 (Array.length t.nvals); t.nvals <- v end;
+    t.nvals.(m) <- t.nk; t.nupto <- m
+  done;
+  t.nvals.(n)
+
+(* the depth limit for B lines: limit_capped of the model's constants *)
+let limit_big (b : M.z) (n : M.z) : M.z =
+  if M.lim_degenerate b then M.Z.add n (zi 1) else
+  let ni = int_of_z n in
+  if ni < 1 then M.limit_capped b n else begin
+    let v = floor_log_capped (int_of_z M.fracLimit) (int_of_z (M.lim_num b)) ni in
+    if ni <= 48 && int_of_z (M.limit_capped b n) <> v then failwith "native limit table differs from limit_capped";
+    zi v
+  end
+
+(* ---- macros *)
+type macro =
+  | MNew
+  | MBulk of int list
+  | MClone of int
+  | MClear of int
+  | MMut of char * int * int list
+  | MGet of int * int list
+
+let parse_macro (m : string) : macro =
+  if m = "" then raise Bad;
+  let f = String.split_on_char ':' (String.sub m 1 (String.length m - 1)) in
+  let tree x = match int_of_string_opt x with Some t when t >= 0 -> t | _ -> raise Bad in
+  match m.[0], f with
+  | 'N', [""] -> MNew
+  | 'K', [""; ks] -> MBulk (keys_of_ks ks)
+  | 'C', [t] -> MClone (tree t)
+  | 'X', [t] -> MClear (tree t)
+  | ('A' | 'P' | 'D'), [t; ks] -> MMut (m.[0], tree t, keys_of_ks ks)
+  | 'G', [t; ks] -> MGet (tree t, keys_of_ks ks)
+  | _ -> raise Bad
+
+let checkpoint_every m = max 4 ((m + 7) / 8)
+
+(* the depth of the deepest key (-1: empty) and the first key at that depth in preorder, by one
+   pass over the model's tree *)
+let height_deepest (t : M.z M.tree) : int * M.z option =
+  let best = ref (-1) and key = ref None in
+  let rec go t d = match t with
+    | M.Leaf -> ()
+    | M.Node (l, x, r) ->
+      if d > !best then begin best := d; key := Some x end;
+      go l (d + 1); go r (d + 1) in
+  go t 0; (!best, !key)
+
+let rec hash_shape h (t : M.z M.tree) =
+  match t with
+  | M.Leaf -> feed h 0
+  | M.Node (l, x, r) -> hash_shape (hash_shape (feed (feed h 1) (int_of_z x)) l) r
+
+let eval_big beta prog =
+  let b = zi beta in
+  let st = ref [] in
+  let stepb o = let (s', out) = M.step M.zcmp limit_big !st o in st := s'; out in
+  let outs = ref [] in
+  let push s = outs := s :: !outs in
+  let ix t = if t >= List.length !st then raise Bad else nat_of_int t in
+  let tree_at t = nth !st t in
+  let cp () =
+    String.concat "+" (List.map (fun t ->
+      let (h, _) = height_deepest t.M.root in
+      Printf.sprintf "%d:%d:%d:%s" (int_of_z (M.len t)) h h (show_hash (hash_shape (0, 0) t.M.root))) !st) in
+  let unit_item t =
+    let tr = tree_at t in
+    push (Printf.sprintf "%d,%d/%s" (int_of_z (M.len tr)) (fst (height_deepest tr.M.root)) (cp ())) in
+  let fail o = push (fail_str o); raise Exit in
+  (try
+    List.iter (fun m ->
+      match parse_macro m with
+      | MNew -> (match stepb (M.ONew (b, [], [])) with M.RUnit -> unit_item (List.length !st - 1) | o -> fail o)
+      | MBulk keys ->
+        (match stepb (M.ONew (b, List.map zi keys, picks_for keys)) with M.RUnit -> unit_item (List.length !st - 1) | o -> fail o)
+      | MClone t -> (match stepb (M.OClone (ix t)) with M.RUnit -> unit_item (List.length !st - 1) | o -> fail o)
+      | MClear t -> (match stepb (M.OClear (ix t)) with M.RUnit -> unit_item t | o -> fail o)
+      | MMut (c, t, ks) ->
+        let i = ix t in
+        let m = List.length ks in
+        let every = checkpoint_every m in
+        let res = ref [] and lens = ref [] and hs = ref [] and cs = ref [] and dcs = ref [] and cps = ref [] in
+        List.iteri (fun j k ->
+          let zk = zi k in
+          (match stepb (match c with 'A' -> M.OAdd (i, zk) | 'P' -> M.OReplace (i, zk) | _ -> M.ORemove (i, zk)) with
+           | M.RBool r -> res := (if r then 1 else 0) :: !res
+           | o -> fail o);
+          let tr = tree_at t in
+          lens := int_of_z (M.len tr) :: !lens;
+          let (h, deep) = height_deepest tr.M.root in
+          hs := h :: !hs;
+          cs := int_of_z (snd (M.get_count M.zcmp zk tr.M.root)) :: !cs;
+          dcs := (match deep with Some d -> int_of_z (snd (M.get_count M.zcmp d tr.M.root)) | None -> 0) :: !dcs;
+          if (j + 1) mod every = 0 || j = m - 1 then cps := cp () :: !cps) ks;
+        let sq l = enc_seq (List.rev !l) in
+        push (String.concat "/" (String.concat "," [sq res; sq lens; sq hs; sq cs; sq dcs] :: List.rev !cps))
+      | MGet (t, ks) ->
+        ignore (ix t);
+        let tr = tree_at t in
+        let fs = ref [] and cs = ref [] in
+        List.iter (fun k ->
+          let (o, n) = M.get_count M.zcmp (zi k) tr.M.root in
+          fs := (if o <> None then 1 else 0) :: !fs; cs := int_of_z n :: !cs) ks;
+        push (enc_seq (List.rev !fs) ^ "," ^ enc_seq (List.rev !cs))) (String.split_on_char ';' prog)
+  with Exit -> ());
+  String.concat ";" (List.rev !outs)
+
 let eval inp =
   match words inp with
   | ["H"; beta; ops] ->
     (match int_of_string_opt beta with
      | Some b -> eval_history b (parse_ops ops)
      | None -> "?")
+  | ["B"; beta; prog] ->
+    (match int_of_string_opt beta with
+     | Some b when b >= 0 && b <= 1000 -> (try eval_big b prog with Bad -> "?")
+     | _ -> "?")
   | ["LP"; beta; n; hint] ->
     (match int_of_string_opt beta, int_of_string_opt n, int_of_string_opt hint with
      | Some b, Some n, Some h -> eval_point b n h
@@ -291,6 +547,140 @@ let spec_history beta ops out =
     | _ -> fail i op ("malformed item " ^ it)) (List.combine ops items);
   !res
 
+(* ---- C02 on the implementation's output of a B line.  The inequality of the property text,
+   2000^(h-1) <= P * (1000+beta)^(h-1) or h <= 1, is decided through the table
+   K(P) = min(P, largest k with 2000^k <= P * (1000+beta)^k)  (literal constants of the text):
+   h - 1 <= K(P) implies it; when K(P) < P it is equivalent; a height above P + 1 (more levels than the
+   tree ever had keys) is reported as a violation outright.  Cross-checked against the extracted
+   bound_okb on small arguments (every peak up to 32, every 256th call beyond; heights up to 40). *)
+let bound_calls = ref 0
+let bound_ok_big beta p h =
+  incr bound_calls;
+  if h <= 1 then true
+  else if p < 1 then false
+  else begin
+    let k = floor_log_capped 2000 (1000 + beta) p in
+    let r = h - 1 <= k in
+    if h <= 40 && (p <= 32 || !bound_calls land 255 = 0) && (k < p || r) && M.bound_okb (zi beta) (zi p) (zi h) <> r then
+      failwith "bound_okb disagrees with the table";
+    r
+  end
+
+let spec_big beta prog out : string option =
+  let macros = List.map (fun m -> (m, parse_macro m)) (String.split_on_char ';' prog) in
+  let items = if out = "" then [] else String.split_on_char ';' out in
+  let peaks = ref [||] and lens = ref [||] and heights = ref [||] in
+  let push_tree p l h = peaks := Array.append !peaks [| p |]; lens := Array.append !lens [| l |]; heights := Array.append !heights [| h |] in
+  let res = ref None in
+  let short m = if String.length m > 60 then String.sub m 0 60 ^ "..." else m in
+  let fail i m msg = if !res = None then res := Some (Printf.sprintf "macro#%d %s: %s" i (short m) msg) in
+  let observe i m t l h =
+    !peaks.(t) <- (if l = 0 then 0 else max !peaks.(t) l);
+    !lens.(t) <- l; !heights.(t) <- h;
+    if beta < 1000 && not (bound_ok_big beta !peaks.(t) h) then
+      fail i m (Printf.sprintf "height %d exceeds log_{2000/%d}(P)+1 at peak Len P=%d (Len %d)" h (1000 + beta) !peaks.(t) l) in
+  let lookup i m t what c =
+    if c > !heights.(t) + 1 then fail i m (Printf.sprintf "%s made %d comparisons in a tree of height %d" what c !heights.(t))
+    else if beta < 1000 && c >= 3 && not (bound_ok_big beta !peaks.(t) (c - 1)) then
+      fail i m (Printf.sprintf "%s made %d comparisons, more than bound+1 at peak %d" what c !peaks.(t)) in
+  let int_of s = match int_of_string_opt s with Some v -> v | None -> raise Bad in
+  let check_cp i m s =
+    let parts = String.split_on_char '+' s in
+    if List.length parts <> Array.length !peaks then fail i m "number of live trees"
+    else List.iteri (fun t part ->
+      match String.split_on_char ':' part with
+      | [l; hh; ch; _dg] ->
+        let l = int_of l and hh = int_of hh and ch = int_of ch in
+        if l <> !lens.(t) then fail i m (Printf.sprintf "tree %d changed its Len without being operated on" t)
+        else if hh <> ch then fail i m (Printf.sprintf "tree %d: height %d through Root/Left/Right cursors, %d along the node pointers" t ch hh)
+        else if hh <> !heights.(t) then fail i m (Printf.sprintf "tree %d changed its height without being operated on" t)
+        else if beta < 1000 && not (bound_ok_big beta !peaks.(t) ch) then
+          fail i m (Printf.sprintf "tree %d: height %d exceeds the bound at peak %d" t ch !peaks.(t))
+      | _ -> fail i m "malformed checkpoint") parts in
+  let unit_parts x = match String.split_on_char '/' x with
+    | [head; cp] -> (match String.split_on_char ',' head with [l; h] -> (int_of l, int_of h, cp) | _ -> raise Bad)
+    | _ -> raise Bad in
+  let tree t = if t >= Array.length !peaks then raise Bad else t in
+  let rec go i macros items =
+    if !res <> None then () else
+    match macros, items with
+    | [], [] -> ()
+    | [], _ -> res := Some "more items than macros"
+    | (m, _) :: _, [] -> fail i m "no output (the history stopped early)"
+    | (m, mm) :: macros', x :: items' ->
+      if String.length x >= 4 && (String.sub x 0 4 = "hang" || String.sub x 0 4 = "pani") then fail i m ("the implementation did not return: " ^ x)
+      else begin
+        (match mm with
+         | MNew ->
+           let (l, h, cp) = unit_parts x in
+           push_tree 0 l h;
+           if l <> 0 || h <> -1 then fail i m "New without keys is not empty";
+           check_cp i m cp
+         | MBulk keys ->
+           let (l, h, cp) = unit_parts x in
+           push_tree l l h;
+           let t = Array.length !peaks - 1 in
+           observe i m t l h;
+           if l >= 1 && h <> log2i l then fail i m (Printf.sprintf "New built height %d from %d distinct keys, minimum is %d" h l (log2i l))
+           else if l = 0 && h <> -1 then fail i m "New built a non-empty tree of Len 0"
+           else if l > List.length keys then fail i m "New holds more keys than it was given";
+           check_cp i m cp
+         | MClone t ->
+           let t = tree t in
+           let (l, h, cp) = unit_parts x in
+           push_tree !peaks.(t) l h;
+           if l <> !lens.(t) || h <> !heights.(t) then fail i m "Clone has a different Len or height";
+           observe i m (Array.length !peaks - 1) l h;
+           check_cp i m cp
+         | MClear t ->
+           let t = tree t in
+           let (l, h, cp) = unit_parts x in
+           if l <> 0 || h <> -1 then fail i m "Clear left a non-empty tree";
+           observe i m t l h;
+           check_cp i m cp
+         | MMut (_, t, ks) ->
+           let t = tree t in
+           (match String.split_on_char '/' x with
+            | [] -> fail i m "malformed item"
+            | head :: cps ->
+              (match String.split_on_char ',' head with
+               | [rs; ls; hs; cs; dcs] ->
+                 let n = List.length ks in
+                 let a s = Array.of_list (dec_seq s) in
+                 let rs = a rs and ls = a ls and hs = a hs and cs = a cs and dcs = a dcs in
+                 if Array.length rs <> n || Array.length ls <> n || Array.length hs <> n || Array.length cs <> n || Array.length dcs <> n then
+                   fail i m "the item does not have one entry per call"
+                 else begin
+                   let every = checkpoint_every n in
+                   let cps = ref cps in
+                   for j = 0 to n - 1 do
+                     if !res = None then begin
+                       let at = Printf.sprintf "%s call %d of %d" (short m) (j + 1) n in
+                       observe i at t ls.(j) hs.(j);
+                       lookup i at t "Get(the key just used)" cs.(j);
+                       lookup i at t "Get(the deepest key)" dcs.(j);
+                       if (j + 1) mod every = 0 || j = n - 1 then
+                         (match !cps with
+                          | [] -> fail i at "no checkpoint"
+                          | s :: rest -> cps := rest; check_cp i at s)
+                     end
+                   done;
+                   if !res = None && !cps <> [] then fail i m "more checkpoints than expected"
+                 end
+               | _ -> fail i m "malformed item"))
+         | MGet (t, ks) ->
+           let t = tree t in
+           (match String.split_on_char ',' x with
+            | [fs; cs] ->
+              let cs = dec_seq cs in
+              if List.length cs <> List.length ks || List.length (dec_seq fs) <> List.length ks then fail i m "the item does not have one entry per call"
+              else List.iter (fun c -> lookup i m t "Get" c) cs
+            | _ -> fail i m "malformed item"));
+        go (i + 1) macros' items'
+      end in
+  go 0 macros items;
+  !res
+
 let spec_point beta n f =
   (* H1: floor(log2 n) <= f;  H2: 2000^f <= n * (1000+beta)^f *)
   if beta >= 1000 || n < 1 then None
@@ -305,6 +695,9 @@ let spec prop inp out =
     if out = "?" then None else
     if String.length out >= 4 && (String.sub out 0 4 = "hang" || String.sub out 0 4 = "pani") then Some ("the implementation did not return: " ^ out) else
     spec_history (int_of_string beta) (parse_ops ops) out
+  | ["B"; beta; prog] ->
+    if out = "?" then None else
+    (try spec_big (int_of_string beta) prog out with Bad -> Some "malformed output")
   | ["LP"; beta; n; _hint] ->
     (match int_of_string_opt out with
      | Some f -> spec_point (int_of_string beta) (int_of_string n) f
